@@ -1,7 +1,123 @@
-(* C13 -- placeholder while the harness is brought up *)
-From PV Require Import C13.Spec C13.Proofs.
+(* C13 -- process memory figures are consistent with the kernel's per-mapping
+   accounting.  Statements only; proofs live in C13/Proofs*.v.  Model: C13/Model.v
+   (transcription of psutil/_pslinux.py and psutil/__init__.py), specification:
+   C13/Spec.v (kernel records, printers k_statm / k_smaps / k_rollup, demanded answers). *)
+From PV Require Import C13.Spec C13.Lib C13.ProofsMaps C13.ProofsSums C13.ProofsRollup C13.ProofsGroup C13.Proofs.
 
-Theorem C13_percent_total_nonpositive : forall memtype mi mfi total,
-  total <= 0 -> forall q, memory_percent memtype mi mfi total <> Val q.
-Proof. exact percent_total_nonpositive. Qed.
-Print Assumptions C13_percent_total_nonpositive.
+(* memory_info(): the kernel's page counts times the page size, under the documented names *)
+Theorem C13_memory_info_statm : forall pagesize r,
+  wf_statm r = true -> memory_info pagesize (k_statm r) = Val (spec_meminfo pagesize r).
+Proof. exact statm_roundtrip. Qed.
+Print Assumptions C13_memory_info_statm.
+
+(* the three regular-expression scans of _parse_smaps give, for every listing, the sums
+   over all mappings of private (clean + dirty + hugetlb), proportional and swapped kB *)
+Theorem C13_smaps_sums : forall ex ms, forallb (wf_kernel ex) ms = true ->
+  smaps_sums (strip (k_smaps ms)) = spec_sums ms.
+Proof. exact smaps_sums_spec. Qed.
+Print Assumptions C13_smaps_sums.
+
+(* memory_full_info() with the per-mapping listing as the source (kernel without
+   smaps_rollup, or the roll-up answering ENOENT / ESRCH) *)
+Theorem C13_full_info_smaps : forall ex pagesize r ms has_rollup rollup,
+  wf_statm r = true -> forallb (wf_kernel ex) ms = true ->
+  has_rollup = false \/ rollup = FENOENT \/ rollup = FESRCH ->
+  memory_full_info Alive pagesize has_rollup rollup (FContent (k_smaps ms)) (FContent (k_statm r))
+  = Val (spec_full pagesize r ms).
+Proof. exact full_info_smaps. Qed.
+Print Assumptions C13_full_info_smaps.
+
+(* _parse_smaps_rollup on every kernel-formatted roll-up file *)
+Theorem C13_rollup_parse : forall rl, wf_rollup rl = true ->
+  parse_rollup (k_rollup rl) =
+  Val ((ru_kb rl FPrivateClean + ru_kb rl FPrivateDirty + ru_kb rl FPrivateHugetlb) * 1024,
+       ru_kb rl FPss * 1024, ru_kb rl FSwap * 1024).
+Proof. exact rollup_parse. Qed.
+Print Assumptions C13_rollup_parse.
+
+(* memory_full_info() with the roll-up as the source, for every roll-up whose totals are
+   those of the mapping list *)
+Theorem C13_full_info_rollup : forall pagesize r ms rl smaps,
+  wf_statm r = true -> wf_rollup rl = true -> consistent rl ms = true ->
+  memory_full_info Alive pagesize true (FContent (k_rollup rl)) smaps (FContent (k_statm r))
+  = Val (spec_full pagesize r ms).
+Proof. exact full_info_rollup. Qed.
+Print Assumptions C13_full_info_rollup.
+
+(* the same record whether the roll-up or the listing is the source *)
+Theorem C13_rollup_agrees : forall ex pagesize r ms rl,
+  wf_statm r = true -> forallb (wf_kernel ex) ms = true -> wf_rollup rl = true -> consistent rl ms = true ->
+  memory_full_info Alive pagesize true (FContent (k_rollup rl)) (FContent (k_smaps ms)) (FContent (k_statm r))
+  = memory_full_info Alive pagesize false (FContent (k_rollup rl)) (FContent (k_smaps ms)) (FContent (k_statm r)).
+Proof. exact rollup_agrees. Qed.
+Print Assumptions C13_rollup_agrees.
+
+(* memory_maps(grouped=False): one row per mapping, in order, with its own address range,
+   permissions, path ('[anon]' if none, the kernel's " (deleted)" marker removed) and its
+   own ten figures -- any number of mappings, any path bytes without a blank at either end *)
+Theorem C13_maps_ungrouped : forall ex ms, forallb (wf_mapping ex) ms = true ->
+  memory_maps Alive ex (FContent (k_smaps ms)) = Val (map spec_row ms).
+Proof. exact maps_ungrouped. Qed.
+Print Assumptions C13_maps_ungrouped.
+
+(* the excluded class is a real failure: a mapped file whose name ends with a blank *)
+Theorem C13_maps_trailing_blank_refuted :
+  exists m, wf_kernel no_files m = true /\ edges_ok m = false /\
+    exists rows, memory_maps Alive no_files (FContent (k_smaps [m])) = Val rows /\
+                 map w_path rows = [bs "/tmp/a"] /\ map w_path [spec_row m] = [bs "/tmp/a "].
+Proof. exact maps_trailing_blank_refuted. Qed.
+Print Assumptions C13_maps_trailing_blank_refuted.
+
+(* memory_maps(grouped=True), for any list of rows: one row per distinct path ... *)
+Theorem C13_group_paths_nodup : forall rows, NoDup (map fst (group_rows rows)).
+Proof. exact group_paths_nodup. Qed.
+Print Assumptions C13_group_paths_nodup.
+
+Theorem C13_group_paths_complete : forall rows p,
+  In p (map fst (group_rows rows)) <-> exists r, In r rows /\ w_path r = p.
+Proof. exact group_paths_complete. Qed.
+Print Assumptions C13_group_paths_complete.
+
+(* ... whose every field is the sum over that path's mappings *)
+Theorem C13_group_sums : forall rows p ns,
+  Forall (fun r => length (w_nums r) = 10%nat) rows ->
+  In (p, ns) (group_rows rows) ->
+  ns = fold_left zip_add (map w_nums (filter (fun r => beqb (w_path r) p) rows)) (repeat 0 10).
+Proof. exact group_sums. Qed.
+Print Assumptions C13_group_sums.
+
+(* conservation: the grouped rows add up, field by field, to the ungrouped rows *)
+Theorem C13_group_conservation : forall rows,
+  Forall (fun r => length (w_nums r) = 10%nat) rows ->
+  fold_left zip_add (map snd (group_rows rows)) (repeat 0 10)
+  = fold_left zip_add (map w_nums rows) (repeat 0 10).
+Proof. exact group_conservation. Qed.
+Print Assumptions C13_group_conservation.
+
+(* end to end: the grouped view of the kernel's listing *)
+Theorem C13_maps_grouped : forall ex ms, forallb (wf_mapping ex) ms = true ->
+  omap group_rows (memory_maps Alive ex (FContent (k_smaps ms))) = Val (spec_grouped (map spec_row ms)).
+Proof. exact maps_grouped. Qed.
+Print Assumptions C13_maps_grouped.
+
+(* memory_percent(t) = 100 * field / total for each of the ten field names ... *)
+Theorem C13_percent_valid : forall (i : nat) name vals total,
+  nth_error full_names i = Some name -> length vals = 10%nat -> 0 < total ->
+  memory_percent name (Val (firstn 7 vals)) (Val vals) total = Val (nth i vals 0 * 100, total).
+Proof. exact percent_valid. Qed.
+Print Assumptions C13_percent_valid.
+
+(* ... and ValueError for every other name, whatever the process state *)
+Theorem C13_percent_invalid : forall name mi mfi total,
+  ~ In name full_names -> memory_percent name mi mfi total = Exc ValueError.
+Proof. exact percent_invalid. Qed.
+Print Assumptions C13_percent_invalid.
+
+(* memory_percent over the kernel's files *)
+Theorem C13_percent_kernel : forall ex pagesize r ms name total,
+  wf_statm r = true -> forallb (wf_kernel ex) ms = true -> 0 < total ->
+  memory_percent name (with_file Alive (FContent (k_statm r)) (memory_info pagesize))
+                 (memory_full_info Alive pagesize false FENOENT (FContent (k_smaps ms)) (FContent (k_statm r))) total
+  = spec_percent name (spec_full pagesize r ms) total.
+Proof. exact percent_kernel. Qed.
+Print Assumptions C13_percent_kernel.
